@@ -370,6 +370,55 @@ func runCases(rep *lib.Report) {
 		cases = append(cases, ci)
 		text.WriteString("\n" + src)
 	}
+	// systematic cases: every condition form x {sink in the then-branch, guard, sink in the else-branch},
+	// plus a few fixed sanitizer / pass-through shapes
+	addCase := func(body []cstmt, s2 bool) {
+		i := len(cases)
+		g := &caseGen{r: r, nextSite: &site}
+		before := site
+		s0 := g.site()
+		st2 := 0
+		if s2 {
+			st2 = g.site()
+		}
+		var fix func(b []cstmt)
+		fix = func(b []cstmt) {
+			for k := range b {
+				if b[k].Kind == kSink || b[k].Kind == kSource {
+					b[k].Site = g.site()
+				}
+				fix(b[k].A)
+				fix(b[k].B)
+			}
+		}
+		fix(body)
+		src := renderCase(fmt.Sprintf("case%d", i), s0, st2, body, false)
+		ci := &caseInfo{id: i, src: src, sites: map[int]bool{}, gt: map[[2]int]bool{}, rept: map[[2]int]bool{}, condKinds: map[int]bool{}, nontriv: true}
+		for k := before + 1; k <= site; k++ {
+			ci.sites[k] = true
+		}
+		collectKinds(body, ci.condKinds)
+		delete(ci.condKinds, cOpaque)
+		cases = append(cases, ci)
+		text.WriteString("\n" + src)
+	}
+	snk := func(v int) cstmt { return cstmt{Kind: kSink, V: v} }
+	for k := 1; k < nCondKinds; k++ {
+		c := cond{Kind: k, V: 0}
+		addCase([]cstmt{{Kind: kIf, C: c, A: []cstmt{snk(0)}}}, false)
+		addCase([]cstmt{{Kind: kIf, C: c, A: []cstmt{{Kind: kReturn}}}, snk(0)}, false)
+		addCase([]cstmt{{Kind: kIf, C: c, A: []cstmt{{Kind: kNop}}, B: []cstmt{snk(0)}}}, false)
+	}
+	addCase([]cstmt{{Kind: kNorm, V: 1, W: 0}, snk(1)}, false)
+	addCase([]cstmt{{Kind: kNorm, V: 1, W: 0}, {Kind: kIf, C: cond{cNotVal, 1}, A: []cstmt{{Kind: kReturn}}}, snk(1), snk(0)}, false)
+	addCase([]cstmt{{Kind: kSanitize, V: 1, W: 0}, snk(1), snk(0)}, false)
+	addCase([]cstmt{{Kind: kIf, C: cond{cOpaque, 0}, A: []cstmt{{Kind: kSanitize, V: 0, W: 0}}}, snk(0)}, false)
+	addCase([]cstmt{{Kind: kSanitize, V: 0, W: 0}, {Kind: kConcat, V: 0, W: 2}, snk(0)}, true)
+	addCase([]cstmt{{Kind: kCopy, V: 1, W: 0}, {Kind: kConcat, V: 1, W: 2}, {Kind: kIf, C: cond{cNotVal, 0}, A: []cstmt{{Kind: kReturn}}}, snk(1), snk(0)}, true)
+	addCase([]cstmt{{Kind: kFor, C: cond{cVal, 0}, A: []cstmt{snk(0)}}, snk(0)}, false)
+	addCase([]cstmt{{Kind: kFor, C: cond{cOpaque, 0}, A: []cstmt{{Kind: kIf, C: cond{cNotVal, 0}, A: []cstmt{{Kind: kReturn}}}, snk(0)}}, snk(0)}, false)
+	rep.Extra["systematic_cases"] = 3*(nCondKinds-1) + 8
+
 	// shape cases (same data through different SSA views)
 	nShapes := 60
 	if lib.Thorough() {
